@@ -1,10 +1,17 @@
 /-
 C14 — the middleware calls the handler only for valid requests and shields clients.
-Property theorems only. Model and spec: KinModel/Middleware.lean; helper lemmas: KinModel/Lemmas/C14.lean.
-All theorems quantify over every handler behaviour (any `List Op`), every ErrFunc / ErrorEncoder behaviour
-(`errOps`, any op lists), every verdict function of response validation, strict and non-strict.
+Property theorems only. Model and spec: KinModel/Middleware.lean; helper lemmas: KinModel/Lemmas/C14.lean;
+the obligations on the translator tables (what the model's shape rests on in the source): Props/C14Src.lean.
+All theorems quantify over every handler behaviour (any `List Op`: header edits, WriteHeader with any code, writes
+in pieces, Flush, panic), every ErrFunc / ErrorEncoder behaviour (`errOps`, any op lists), every verdict function
+of response validation, strict and non-strict, both transports, and — section "histories" — every sequence of
+requests through one middleware instance.
+Hypotheses that occur: `ValidCodes` (the handler's own WriteHeader codes are ones net/http accepts), `NoPanic`
+where a statement is about a delivered response, and the exclusion class `informational` of the open finding
+F-C14-2 (real server + a 1xx WriteHeader) in the `_partial` theorems.
 -/
 import KinModel.Middleware
+import KinModel.MiddlewareSrc
 import KinModel.Lemmas.C14
 import KinModel.Props.C07
 namespace KinModel.Middleware
@@ -12,97 +19,122 @@ namespace KinModel.Middleware
 /-! ## strict wrapper -/
 
 /-- While the handler runs against the strict wrapper nothing but header-map edits reaches the client:
-the client's writer has received exactly the handler's Header().Set/Del calls. -/
+the client's writer has received exactly the handler's Header().Set/Del calls (and is dead after a panic). -/
 theorem strict_client_during_handler (w : Strict) (ops : List Op) :
     (Strict.run w ops).client = ops.foldl hdrStep w.client := by
   rw [strict_run_eq]
 
-/-- **strict_nothing_reaches_client_before_flush.** For every sequence of handler calls, status, body bytes,
-sent headers, flush flag and panic state of the client's writer are untouched until the middleware decides. -/
+/-- **strict_nothing_reaches_client_before_flush.** For every sequence of handler calls, status, informational
+responses, body bytes, sent headers and flush flag of the client's writer are untouched until the middleware
+decides; the writer is dead afterwards exactly when the handler panicked. -/
 theorem strict_nothing_reaches_client_before_flush (w : Strict) (ops : List Op) :
     (Strict.run w ops).client.status = w.client.status ∧
+    (Strict.run w ops).client.info = w.client.info ∧
     (Strict.run w ops).client.body = w.client.body ∧
     (Strict.run w ops).client.sent = w.client.sent ∧
     (Strict.run w ops).client.flushed = w.client.flushed ∧
-    (Strict.run w ops).client.panicked = w.client.panicked := by
+    (Strict.run w ops).client.panicked = (w.client.panicked || panics ops) := by
   rw [strict_client_during_handler]
-  obtain ⟨⟨h1, h2, h3⟩, h4, h5⟩ := core_foldl_hdrStep w.client ops
-  exact ⟨h1, h2, h4, h5, h3⟩
+  obtain ⟨_, h1, h2, h3, h4, h5⟩ := foldl_hdrStep_frame w.client ops
+  exact ⟨h1, h2, h3, h4, h5, foldl_hdrStep_panicked w.client ops⟩
 
-/-- What the strict wrapper hands to response validation: the first status the handler wrote (0 when it
-wrote none; the middleware then validates under 200, see `validatedStatus`), and all the bytes it wrote, in order. -/
-theorem strict_records (ops : List Op) :
-    (Strict.run {} ops).status = (wroteStatus ops).getD 0 ∧
-    (Strict.run {} ops).buf = written ops ∧
-    (Strict.run {} ops).headerWritten = (wroteStatus ops).isSome := by
+/-- What the strict wrapper hands to response validation: the code of the first WriteHeader call (0 when there
+was none; the middleware then validates under 200, see `validatedStatus`), and all the bytes written, in order. -/
+theorem strict_records (c : Client) (ops : List Op) :
+    (Strict.run { client := c } ops).status = (wroteStatus ops).getD 0 ∧
+    (Strict.run { client := c } ops).buf = written ops ∧
+    (Strict.run { client := c } ops).headerWritten = (wroteStatus ops).isSome := by
   rw [strict_run_eq]; simp
 
-/-- **strict_valid_response_exact.** After flushBodyContents the client holds exactly the status the handler
-wrote (200 when it never called WriteHeader/Write — finding #16 is repaired: no WriteHeader(0)) and exactly
-the bytes it wrote, and the client's writer did not panic. For every handler with acceptable status codes. -/
-theorem strict_valid_response_exact (ops : List Op) (hv : ValidCodes ops) :
-    (Strict.run {} ops).flushOut.seen = ⟨(wroteStatus ops).getD 200, written ops⟩ ∧
-    (Strict.run {} ops).flushOut.panicked = false := by
+/-- **strict_valid_response_exact** (partial: outside the class `informational` of finding F-C14-2; the full
+statement — the same without `hx` — is refuted by `informational_witness_strict`). After flushBodyContents the
+client holds exactly the status the handler wrote (200 when it never called WriteHeader/Write — finding #16 is
+repaired: no WriteHeader(0)) and exactly the bytes it wrote, and the client's writer did not panic. -/
+theorem strict_valid_response_exact_partial (server : Bool) (ops : List Op) (hv : ValidCodes ops) (hn : NoPanic ops)
+    (hx : informational server ops = false) :
+    (Strict.run { client := Client.init server } ops).flushOut.seen = ⟨(handlerStatus server ops).getD 200, written ops⟩ ∧
+    (Strict.run { client := Client.init server } ops).flushOut.panicked = false := by
   rw [strict_run_eq]
-  obtain ⟨⟨h1, h2, h3⟩, _, _⟩ := core_foldl_hdrStep ({} : Client) ops
-  generalize hc : ops.foldl hdrStep ({} : Client) = c at *
+  obtain ⟨⟨h0, h1, _, h2, h3⟩, _, _⟩ := core_foldl_hdrStep (Client.init server) ops hn
+  have hst : handlerStatus server ops = wroteStatus ops := firstStatus_noinfo server false ops hx
+  rw [hst]
+  generalize hc : ops.foldl hdrStep (Client.init server) = c at *
+  have hsv : c.server = server := h0
   have hs : c.status = none := h1
   have hb : c.body = [] := h2
   have hp : c.panicked = false := h3
   cases hw : wroteStatus ops with
   | none =>
-    simp [Strict.flushOut, Client.write, Client.writeHeader, Client.seen, hs, hb, hp, validCode_200]
+    simp [Strict.flushOut, Client.write, Client.writeHeader, Client.seen, hs, hb, hp, validCode_200, isInfo_200]
   | some n =>
-    have hn : validCode n = true := firstStatus_valid false ops hv n hw
-    simp [Strict.flushOut, Client.write, Client.writeHeader, Client.seen, hs, hb, hp, hn]
+    have hn' : validCode n = true := firstStatus_valid false false ops hv n hw
+    have hni : (server && isInfo n) = false := wroteStatus_notInfo server ops n hx hw
+    simp [Strict.flushOut, Client.write, Client.writeHeader, Client.seen, hs, hb, hp, hn', hsv, hni]
 
 /-- In strict mode the header map is snapshotted only at flush time: every header edit of the handler — also
 those made after its WriteHeader/Write — is part of what the client receives. -/
-theorem strict_headers_delivered (ops : List Op) (hv : ValidCodes ops) :
-    (Strict.run {} ops).flushOut.sent = finalHdr ops := by
+theorem strict_headers_delivered_partial (server : Bool) (ops : List Op) (hv : ValidCodes ops) (hn : NoPanic ops)
+    (hx : informational server ops = false) :
+    (Strict.run { client := Client.init server } ops).flushOut.sent = finalHdr ops := by
   rw [strict_run_eq]
-  obtain ⟨⟨h1, h2, h3⟩, _, _⟩ := core_foldl_hdrStep ({} : Client) ops
-  unfold finalHdr
-  generalize ops.foldl hdrStep ({} : Client) = c at *
+  obtain ⟨⟨h0, h1, _, _, h3⟩, _, _⟩ := core_foldl_hdrStep (Client.init server) ops hn
+  have hh : (ops.foldl hdrStep (Client.init server)).hdr = finalHdr ops := by
+    unfold finalHdr
+    exact hdr_foldl_hdrStep_indep (Client.init server) {} ops rfl rfl
+  rw [← hh]
+  generalize ops.foldl hdrStep (Client.init server) = c at *
+  have hsv : c.server = server := h0
   have hs : c.status = none := h1
   have hp : c.panicked = false := h3
   cases hw : wroteStatus ops with
-  | none => simp [Strict.flushOut, Client.write, Client.writeHeader, hs, hp, validCode_200]
+  | none => simp [Strict.flushOut, Client.write, Client.writeHeader, hs, hp, validCode_200, isInfo_200]
   | some n =>
-    have hn : validCode n = true := firstStatus_valid false ops hv n hw
-    simp [Strict.flushOut, Client.write, Client.writeHeader, hs, hp, hn]
+    have hn' : validCode n = true := firstStatus_valid false false ops hv n hw
+    have hni : (server && isInfo n) = false := wroteStatus_notInfo server ops n hx hw
+    simp [Strict.flushOut, Client.write, Client.writeHeader, hs, hp, hn', hsv, hni]
 
 /-- For handlers that never call Flush the strict path delivers what the raw writer would have received
 (the strict wrapper is not an http.Flusher, so the handler's `w.(http.Flusher)` assertion fails). -/
-theorem strict_exact_vs_direct (ops : List Op) (hv : ValidCodes ops) (hf : ∀ op ∈ ops, op ≠ Op.flush) :
-    (Strict.run {} ops).flushOut.seen = (runDirect {} ops).seen := by
-  rw [(strict_valid_response_exact ops hv).1]
-  obtain ⟨h1, h2⟩ := runDirect_status_body {} ops rfl hv
-  simp only [Client.seen, h1, h2, firstStatus_noflush ops hf, wroteStatus]
-  simp
+theorem strict_exact_vs_direct_partial (server : Bool) (ops : List Op) (hv : ValidCodes ops) (hn : NoPanic ops)
+    (hx : informational server ops = false) (hf : ∀ op ∈ ops, op ≠ Op.flush) :
+    (Strict.run { client := Client.init server } ops).flushOut.seen = (runDirect (Client.init server) ops).seen := by
+  rw [(strict_valid_response_exact_partial server ops hv hn hx).1]
+  obtain ⟨h1, h2⟩ := runDirect_status_body (Client.init server) ops rfl hv hn
+  have h1' : (runDirect (Client.init server) ops).status = firstStatus server true ops := by
+    simpa [Client.init] using h1
+  have h2' : (runDirect (Client.init server) ops).body = written ops := by simpa [Client.init] using h2
+  simp [Client.seen, h1', h2', firstStatus_noflush server ops hf, handlerStatus]
 
 /-! ## warn wrapper -/
 
-/-- **warn_is_transparent.** The warn wrapper refines the raw writer: after any sequence of handler calls
-(including invalid status codes, repeated WriteHeader, Flush before the first write) the client's writer is
-in exactly the state a direct run would have left it in — status, body, header snapshot, flush flag, panic. -/
-theorem warn_is_transparent (ops : List Op) :
-    (Warn.run {} ops).client = runDirect {} ops :=
-  (warn_run {} ops (by simp [WInv])).1
+/-- **warn_is_transparent** (partial: outside F-C14-2; refuted without `hx` by `informational_witness_warn`).
+The warn wrapper refines the raw writer: after any sequence of handler calls (including invalid status codes,
+repeated WriteHeader, Flush before the first write, a panic) the client's writer is in exactly the state a direct
+run would have left it in — status, body, header snapshot, flush flag, panic. -/
+theorem warn_is_transparent_partial (server : Bool) (ops : List Op) (hx : informational server ops = false) :
+    (Warn.run { client := Client.init server } ops).client = runDirect (Client.init server) ops :=
+  (warn_run { client := Client.init server } ops (by simp [WInv]) hx).1
 
-/-- What the warn wrapper hands to response validation: the first status the handler wrote (0 if none) and
-all bytes it wrote. -/
-theorem warn_records (ops : List Op) :
-    (Warn.run {} ops).status = (wroteStatus ops).getD 0 ∧ (Warn.run {} ops).buf = written ops := by
-  obtain ⟨_, h2, h3⟩ := warn_run_record {} ops
+/-- on a ResponseRecorder (no informational responses) the refinement holds for every handler -/
+theorem warn_is_transparent_recorder (ops : List Op) :
+    (Warn.run {} ops).client = runDirect {} ops :=
+  warn_is_transparent_partial false ops rfl
+
+/-- What the warn wrapper hands to response validation: the code of the first WriteHeader (0 if none) and
+all bytes the handler wrote. -/
+theorem warn_records (c : Client) (ops : List Op) :
+    (Warn.run { client := c } ops).status = (wroteStatus ops).getD 0 ∧ (Warn.run { client := c } ops).buf = written ops := by
+  obtain ⟨_, h2, h3⟩ := warn_run_record { client := c } ops
   simp [h2, h3]
 
 /-- In non-strict mode the bytes handed to response validation are exactly the bytes the client received
-(handlers with acceptable status codes). -/
-theorem warn_validates_delivered_body (ops : List Op) (hv : ValidCodes ops) :
-    (Warn.run {} ops).buf = (Warn.run {} ops).client.body := by
-  rw [warn_is_transparent, (warn_records ops).2, (runDirect_status_body {} ops rfl hv).2]
-  simp
+(handlers that complete). -/
+theorem warn_validates_delivered_body (server : Bool) (ops : List Op) (hv : ValidCodes ops) (hn : NoPanic ops)
+    (hx : informational server ops = false) :
+    (Warn.run { client := Client.init server } ops).buf = (Warn.run { client := Client.init server } ops).client.body := by
+  rw [warn_is_transparent_partial server ops hx, (warn_records _ ops).2,
+      (runDirect_status_body (Client.init server) ops rfl hv hn).2]
+  simp [Client.init]
 
 /-! ## Validator.Middleware -/
 
@@ -180,7 +212,7 @@ theorem rejected_request_answered_by_middleware (cfg : Cfg) (env : Env) (ops : L
     (h : ¬ (env.routeFound = true ∧ env.reqOK = true)) :
     let code := if env.routeFound then ErrCode.requestInvalid else ErrCode.cannotFindRoute
     (middleware cfg env ops).handlerRan = false ∧
-    (middleware cfg env ops).client = runDirect {} (cfg.errOps code) ∧
+    (middleware cfg env ops).client = runDirect (Client.init env.server) (cfg.errOps code) ∧
     (middleware cfg env ops).errCalls = [code] := by
   unfold middleware
   cases h1 : env.routeFound <;> cases h2 : env.reqOK <;> simp_all
@@ -192,55 +224,85 @@ theorem default_error_responses :
     (runDirect {} (defaultErrOps .responseInvalid)).seen = ⟨500, "server error\n".toList⟩ := by
   decide
 
-/-- **strict_invalid_response_replaced.** Strict mode, response validation fails: ErrFunc is called once with
-ErrCodeResponseInvalid on the raw writer and the client sees exactly the status and body ErrFunc produces —
-as if the handler had written nothing; no status code and no body byte of the handler reaches the client.
-For every handler and every ErrFunc. -/
-theorem strict_invalid_response_replaced (cfg : Cfg) (env : Env) (ops : List Op)
+/-- **strict_invalid_response_replaced.** Strict mode, the handler returned, response validation fails: ErrFunc
+is called once with ErrCodeResponseInvalid on the raw writer and the client sees exactly the status and body
+ErrFunc produces — as if the handler had written nothing; no status code, informational response or body byte of
+the handler reaches the client. For every handler, every ErrFunc, both transports (no exclusion). -/
+theorem strict_invalid_response_replaced (cfg : Cfg) (env : Env) (ops : List Op) (hn : NoPanic ops)
     (hs : cfg.strict = true) (hr : env.routeFound = true) (hq : env.reqOK = true)
-    (hbad : env.respOK (validatedStatus (Strict.run {} ops).status) (Strict.run {} ops).client.hdr (Strict.run {} ops).buf = false) :
-    (middleware cfg env ops).client.seen = (runDirect {} (cfg.errOps .responseInvalid)).seen ∧
-    (middleware cfg env ops).client.panicked = (runDirect {} (cfg.errOps .responseInvalid)).panicked ∧
+    (hbad : env.respOK (validatedStatus (Strict.run { client := Client.init env.server } ops).status)
+              (Strict.run { client := Client.init env.server } ops).client.hdr
+              (Strict.run { client := Client.init env.server } ops).buf = false) :
+    (middleware cfg env ops).client.seen = (runDirect (Client.init env.server) (cfg.errOps .responseInvalid)).seen ∧
+    (middleware cfg env ops).client.info = (runDirect (Client.init env.server) (cfg.errOps .responseInvalid)).info ∧
+    (middleware cfg env ops).client.panicked = (runDirect (Client.init env.server) (cfg.errOps .responseInvalid)).panicked ∧
     (middleware cfg env ops).errCalls = [.responseInvalid] ∧
     (middleware cfg env ops).logs = [.response] := by
-  have hcore : Core (Strict.run {} ops).client {} := by
-    rw [strict_client_during_handler]; exact (core_foldl_hdrStep {} ops).1
+  have hcore : Core (Strict.run { client := Client.init env.server } ops).client (Client.init env.server) := by
+    rw [strict_client_during_handler]; exact (core_foldl_hdrStep _ ops hn).1
   have hrun := core_runDirect hcore (cfg.errOps .responseInvalid)
-  simp only [middleware, hs, hr, hq, hbad]
+  have hp : (Strict.run { client := Client.init env.server } ops).client.panicked = false := hcore.2.2.2.2
+  simp only [middleware, hs, hr, hq, hbad, hp]
   simp
-  exact ⟨hrun.seen, hrun.2.2⟩
+  exact ⟨hrun.seen, hrun.2.2.1, hrun.2.2.2.2⟩
 
 /-- Strict mode, response validation passes: the client gets the handler's status and bytes, ErrFunc is not
-called, nothing is logged. -/
-theorem strict_valid_response_delivered (cfg : Cfg) (env : Env) (ops : List Op) (hv : ValidCodes ops)
+called, nothing is logged (partial: outside F-C14-2). -/
+theorem strict_valid_response_delivered_partial (cfg : Cfg) (env : Env) (ops : List Op) (hv : ValidCodes ops)
+    (hn : NoPanic ops) (hx : informational env.server ops = false)
     (hs : cfg.strict = true) (hr : env.routeFound = true) (hq : env.reqOK = true)
-    (hok : env.respOK (validatedStatus (Strict.run {} ops).status) (Strict.run {} ops).client.hdr (Strict.run {} ops).buf = true) :
-    (middleware cfg env ops).client.seen = ⟨(wroteStatus ops).getD 200, written ops⟩ ∧
+    (hok : env.respOK (validatedStatus (Strict.run { client := Client.init env.server } ops).status)
+              (Strict.run { client := Client.init env.server } ops).client.hdr
+              (Strict.run { client := Client.init env.server } ops).buf = true) :
+    (middleware cfg env ops).client.seen = ⟨(handlerStatus env.server ops).getD 200, written ops⟩ ∧
     (middleware cfg env ops).client.panicked = false ∧
     (middleware cfg env ops).errCalls = [] ∧ (middleware cfg env ops).logs = [] := by
-  simp only [middleware, hs, hr, hq, hok]
+  have hp : (Strict.run { client := Client.init env.server } ops).client.panicked = false := by
+    rw [strict_client_during_handler]; exact (core_foldl_hdrStep _ ops hn).1.2.2.2.2
+  simp only [middleware, hs, hr, hq, hok, hp]
   simp
-  exact strict_valid_response_exact ops hv
+  exact strict_valid_response_exact_partial env.server ops hv hn hx
 
-/-- **nonstrict_passes_through.** Non-strict mode: whatever response validation says, the client's writer ends
-in exactly the state the handler would have produced on it directly, and ErrFunc is never called. -/
-theorem nonstrict_passes_through (cfg : Cfg) (env : Env) (ops : List Op)
+/-- **strict_handler_panic_leaks_nothing.** Strict mode, the handler panics somewhere (after any calls): no
+status, no informational response, no body byte and no header snapshot of its unvalidated response is on the
+wire; ErrFunc is not called (the panic unwinds through Middleware). -/
+theorem strict_handler_panic_leaks_nothing (cfg : Cfg) (env : Env) (ops : List Op) (hpan : panics ops = true)
+    (hs : cfg.strict = true) (hr : env.routeFound = true) (hq : env.reqOK = true) :
+    (middleware cfg env ops).client.seen = ⟨200, []⟩ ∧ (middleware cfg env ops).client.info = [] ∧
+    (middleware cfg env ops).client.sent = [] ∧ (middleware cfg env ops).client.flushed = false ∧
+    (middleware cfg env ops).client.panicked = true ∧ (middleware cfg env ops).errCalls = [] := by
+  obtain ⟨h1, h2, h3, h4, h5, h6⟩ :=
+    strict_nothing_reaches_client_before_flush { client := Client.init env.server } ops
+  have hp : (Strict.run { client := Client.init env.server } ops).client.panicked = true := by
+    rw [h6, hpan]; simp
+  simp only [middleware, hs, hr, hq, hp]
+  simp only [Client.init] at h1 h2 h3 h4 h5 hp
+  simp [Client.seen, Client.init, h1, h2, h3, h4, h5, hp]
+
+/-- **nonstrict_passes_through** (partial: outside F-C14-2). Non-strict mode: whatever response validation says,
+the client's writer ends in exactly the state the handler would have produced on it directly — also when the
+handler panics half-way —, and ErrFunc is never called. -/
+theorem nonstrict_passes_through_partial (cfg : Cfg) (env : Env) (ops : List Op)
+    (hx : informational env.server ops = false)
     (hs : cfg.strict = false) (hr : env.routeFound = true) (hq : env.reqOK = true) :
-    (middleware cfg env ops).client = runDirect {} ops ∧ (middleware cfg env ops).errCalls = [] := by
+    (middleware cfg env ops).client = runDirect (Client.init env.server) ops ∧ (middleware cfg env ops).errCalls = [] := by
   simp only [middleware, hs, hr, hq]
   simp
   repeat' split
-  all_goals simp [warn_is_transparent]
+  all_goals simp [warn_is_transparent_partial env.server ops hx]
 
 /-- executable oracle = declarative `Meets` -/
 theorem meetsB_iff (o : Outcome) (s : SpecOut) : meetsB o s = true ↔ Meets o s := by
   unfold meetsB Meets
   cases s.full <;> simp [and_assoc]
 
-/-- **middleware_meets_spec.** The model of the middleware meets the specification of the property for every
-configuration, environment and handler with acceptable status codes (full strength: the former exclusion
-`StatusUnrecorded`, finding F-C14-1, is repaired — a handler that writes nothing is validated as status 200). -/
-theorem middleware_meets_spec (cfg : Cfg) (env : Env) (ops : List Op) (hv : ValidCodes ops) :
+/-- **middleware_meets_spec** (partial). The model of the middleware meets the specification of the property for
+every configuration, environment, transport and handler with acceptable status codes — panicking handlers
+included — outside the exclusion class `informational` of the open finding F-C14-2.
+Full statement (refuted inside the class by `informational_witness_strict` / `_warn`):
+  ∀ cfg env ops, ValidCodes ops → Meets (middleware cfg env ops) (spec cfg env ops). -/
+theorem middleware_meets_spec_partial (cfg : Cfg) (env : Env) (ops : List Op) (hv : ValidCodes ops)
+    (hx : informational env.server ops = false) :
     Meets (middleware cfg env ops) (spec cfg env ops) := by
   cases hr : env.routeFound with
   | false => simp [Meets, middleware, spec, hr]
@@ -250,49 +312,185 @@ theorem middleware_meets_spec (cfg : Cfg) (env : Env) (ops : List Op) (hv : Vali
   | true =>
   cases hs : cfg.strict with
   | false =>
-    obtain ⟨h1, h2⟩ := nonstrict_passes_through cfg env ops hs hr hq
+    obtain ⟨h1, h2⟩ := nonstrict_passes_through_partial cfg env ops hx hs hr hq
     have h3 := (handler_iff_route_and_valid cfg env ops).mpr ⟨hr, hq⟩
     simp [Meets, spec, hr, hq, hs, h1, h2, h3]
   | true =>
     have h3 := (handler_iff_route_and_valid cfg env ops).mpr ⟨hr, hq⟩
-    obtain ⟨r1, r2, r3⟩ := strict_records ops
-    have hh : (Strict.run {} ops).client.hdr = finalHdr ops := by
-      rw [strict_client_during_handler]; rfl
+    cases hpan : panics ops with
+    | true =>
+      obtain ⟨p1, _, _, _, p5, p6⟩ := strict_handler_panic_leaks_nothing cfg env ops hpan hs hr hq
+      simp [Meets, spec, hr, hq, hs, hpan, h3, p1, p5, p6]
+    | false =>
+    have hn : NoPanic ops := (panics_false_iff ops).mp hpan
+    obtain ⟨r1, r2, r3⟩ := strict_records (Client.init env.server) ops
+    have hh : (Strict.run { client := Client.init env.server } ops).client.hdr = finalHdr ops := by
+      rw [strict_client_during_handler]
+      exact hdr_foldl_hdrStep_indep (Client.init env.server) {} ops rfl rfl
+    have hst : handlerStatus env.server ops = wroteStatus ops := firstStatus_noinfo env.server false ops hx
     -- the verdict the middleware obtains is the verdict on the response the handler wrote
-    have hverdict : env.respOK (validatedStatus (Strict.run {} ops).status) (Strict.run {} ops).client.hdr
-        (Strict.run {} ops).buf = respValid env ops := by
+    have hverdict : env.respOK (validatedStatus (Strict.run { client := Client.init env.server } ops).status)
+        (Strict.run { client := Client.init env.server } ops).client.hdr
+        (Strict.run { client := Client.init env.server } ops).buf = respValid env ops := by
       rw [r1, r2, hh]
       unfold respValid
+      rw [hst]
       cases hw : wroteStatus ops with
       | some n =>
-        have hn : validCode n = true := firstStatus_valid false ops hv n hw
-        have hn0 : n ≠ 0 := by intro h0; rw [h0] at hn; exact absurd hn (by decide)
+        have hn' : validCode n = true := firstStatus_valid false false ops hv n hw
+        have hn0 : n ≠ 0 := by intro h0; rw [h0] at hn'; exact absurd hn' (by decide)
         simp [validatedStatus, hn0]
       | none => simp [validatedStatus]
     cases hval : respValid env ops with
     | true =>
-      obtain ⟨d1, d4, d2, _⟩ := strict_valid_response_delivered cfg env ops hv hs hr hq (hverdict.trans hval)
-      simp [Meets, spec, hr, hq, hs, hval, h3, d1, d2, d4]
+      obtain ⟨d1, d4, d2, _⟩ :=
+        strict_valid_response_delivered_partial cfg env ops hv hn hx hs hr hq (hverdict.trans hval)
+      simp [Meets, spec, hr, hq, hs, hpan, hval, h3, d1, d2, d4]
     | false =>
-      obtain ⟨d1, d2, d3, _⟩ := strict_invalid_response_replaced cfg env ops hs hr hq (hverdict.trans hval)
-      simp [Meets, spec, hr, hq, hs, hval, h3, d1, d2, d3]
+      obtain ⟨d1, _, d2, d3, _⟩ := strict_invalid_response_replaced cfg env ops hn hs hr hq (hverdict.trans hval)
+      simp [Meets, spec, hr, hq, hs, hpan, hval, h3, d1, d2, d3]
+
+/-- on a ResponseRecorder the statement holds at full strength (`ValidCodes` only) -/
+theorem middleware_meets_spec_recorder (cfg : Cfg) (env : Env) (ops : List Op) (hv : ValidCodes ops)
+    (hrec : env.server = false) : Meets (middleware cfg env ops) (spec cfg env ops) :=
+  middleware_meets_spec_partial cfg env ops hv (by simp [informational, hrec])
 
 /-- The verdict logged in non-strict mode is the verdict on the response the client received, whenever the
 handler fixed its status itself (no Flush before the first WriteHeader/Write). -/
-theorem warn_verdict_is_on_delivered_response (ops : List Op) (hv : ValidCodes ops)
-    (hf : firstStatus true ops = firstStatus false ops) :
-    validatedStatus (Warn.run {} ops).status = (runDirect {} ops).seen.status := by
-  rw [(warn_records ops).1, Client.seen, (runDirect_status_body {} ops rfl hv).1]
-  simp only [hf]
+theorem warn_verdict_is_on_delivered_response (server : Bool) (ops : List Op) (hv : ValidCodes ops) (hn : NoPanic ops)
+    (hx : informational server ops = false)
+    (hf : firstStatus server true ops = firstStatus server false ops) :
+    validatedStatus (Warn.run { client := Client.init server } ops).status =
+      (runDirect (Client.init server) ops).seen.status := by
+  rw [(warn_records _ ops).1, Client.seen, (runDirect_status_body (Client.init server) ops rfl hv hn).1]
+  simp only [Client.init, hf]
+  rw [firstStatus_noinfo server false ops hx]
   cases hw : wroteStatus ops with
   | some n =>
-    have hn : validCode n = true := firstStatus_valid false ops hv n hw
-    have hn0 : n ≠ 0 := by intro h0; rw [h0] at hn; exact absurd hn (by decide)
+    have hn' : validCode n = true := firstStatus_valid false false ops hv n hw
+    have hn0 : n ≠ 0 := by intro h0; rw [h0] at hn'; exact absurd hn' (by decide)
     unfold wroteStatus at hw
     simp [validatedStatus, hn0, hw]
   | none =>
     unfold wroteStatus at hw
     simp [validatedStatus, hw]
+
+/-! ## open finding F-C14-2: informational (1xx) responses behind a real server -/
+
+/-- a real server, the documented response for 404 wants the body "1", everything else is undocumented and
+allowed; ErrFunc is the default -/
+def infoEnv : Env := { routeFound := true, reqOK := true, server := true,
+                       respOK := fun st _ b => st != 404 || b == ['1'] }
+/-- Early Hints, then the final answer 404 "1" -/
+def infoOps : List Op := [.writeHeader 103, .writeHeader 404, .write ['1']]
+
+/-- **Witness (strict).** The handler's response (404, "1") is valid; net/http alone would deliver 103 then
+404 "1". The strict wrapper takes 103 for the status: it validates a 103 response and delivers 103 then **200**
+"1" — a valid response does not reach the client with the status the handler wrote. Inside the class
+`informational` the model differs from the spec. -/
+theorem informational_witness_strict :
+    informational infoEnv.server infoOps = true ∧
+    (runDirect (Client.init true) infoOps).seen = ⟨404, ['1']⟩ ∧
+    (spec witnessCfg0 infoEnv infoOps).seen = ⟨404, ['1']⟩ ∧
+    (middleware witnessCfg0 infoEnv infoOps).client.seen = ⟨200, ['1']⟩ ∧
+    meetsB (middleware witnessCfg0 infoEnv infoOps) (spec witnessCfg0 infoEnv infoOps) = false := by
+  decide
+
+/-- **Witness (non-strict).** The warn wrapper forwards the *recorded* status on every WriteHeader call: the
+client receives 103 twice and then an implicit 200 instead of the handler's 404 — the response does not pass
+through unchanged. -/
+theorem informational_witness_warn :
+    (runDirect (Client.init true) infoOps).info = [103] ∧
+    (middleware { witnessCfg0 with strict := false } infoEnv infoOps).client.info = [103, 103] ∧
+    (middleware { witnessCfg0 with strict := false } infoEnv infoOps).client.seen = ⟨200, ['1']⟩ ∧
+    meetsB (middleware { witnessCfg0 with strict := false } infoEnv infoOps)
+           (spec { witnessCfg0 with strict := false } infoEnv infoOps) = false := by
+  decide
+
+/-- the same handler on a ResponseRecorder (which has no informational responses) is outside the class, and
+model = spec there; a real server with a handler that sends no 1xx is outside the class as well -/
+example : informational false infoOps = false ∧
+    meetsB (middleware witnessCfg0 { infoEnv with server := false } infoOps)
+           (spec witnessCfg0 { infoEnv with server := false } infoOps) = true ∧
+    informational true [.writeHeader 404, .write ['1']] = false ∧
+    (middleware witnessCfg0 infoEnv [.writeHeader 404, .write ['1']]).client.seen = ⟨404, ['1']⟩ := by
+  decide
+
+/-! ## histories: one middleware instance serving a sequence of requests -/
+
+/-- **serve_history_free.** What a Validator answers to a request does not depend on the state earlier
+requests left behind (there is none: see `validator_keeps_no_state` in Props/C14Src.lean). -/
+theorem serve_history_free (cfg : Cfg) : HistoryFree (serve cfg) := fun _ _ _ => rfl
+
+/-- **serveSeq_pointwise.** The outcome of every request of a sequence through one `Middleware(h)` chain is the
+outcome of that request alone — whatever came before it (rejected responses, rejected requests, panics). -/
+theorem serveSeq_pointwise (cfg : Cfg) (reqs : List Req) :
+    serveSeq cfg reqs = reqs.map (fun r => middleware cfg r.env r.ops) :=
+  runSeq_of_historyFree (serve cfg) (serve_history_free cfg) {} {} reqs
+
+/-- the n-th answer is a function of the n-th request alone: two histories that agree on request n agree on
+answer n -/
+theorem nth_outcome_depends_on_nth_request (cfg : Cfg) (pre1 pre2 post1 post2 : List Req) (r : Req)
+    (hl : pre1.length = pre2.length) :
+    (serveSeq cfg (pre1 ++ r :: post1))[pre1.length]? = (serveSeq cfg (pre2 ++ r :: post2))[pre1.length]? := by
+  rw [serveSeq_pointwise, serveSeq_pointwise]
+  simp [hl]
+
+/-- **every_request_of_a_history_meets_spec** (partial: outside F-C14-2). For every sequence of requests
+(handlers with acceptable status codes, panicking ones included) each client receives what the property
+prescribes for its own request: handler run iff route and request are fine, strict replacement / exact delivery,
+non-strict pass-through — also right after a request whose response was rejected or whose handler panicked. -/
+theorem every_request_of_a_history_meets_spec_partial (cfg : Cfg) (reqs : List Req)
+    (hv : ∀ r ∈ reqs, ValidCodes r.ops) (hx : ∀ r ∈ reqs, informational r.env.server r.ops = false) :
+    MeetsSeq cfg reqs (serveSeq cfg reqs) := by
+  rw [serveSeq_pointwise]
+  induction reqs with
+  | nil => trivial
+  | cons r rs ih =>
+    exact ⟨middleware_meets_spec_partial cfg r.env r.ops (hv r (by simp)) (hx r (by simp)),
+           ih (fun x hm => hv x (List.mem_cons_of_mem _ hm)) (fun x hm => hx x (List.mem_cons_of_mem _ hm))⟩
+
+/-- a rejected response (or a panic) leaves nothing behind: the request that follows it is delivered exactly -/
+theorem valid_after_rejected_is_delivered (cfg : Cfg) (bad good : Req) (hs : cfg.strict = true)
+    (hg : ValidCodes good.ops) (hn : NoPanic good.ops) (hx : informational good.env.server good.ops = false)
+    (hr : good.env.routeFound = true) (hq : good.env.reqOK = true)
+    (hok : respValid good.env good.ops = true) :
+    ∃ o1 o2, serveSeq cfg [bad, good] = [o1, o2] ∧
+      o2.client.seen = ⟨(handlerStatus good.env.server good.ops).getD 200, written good.ops⟩ ∧ o2.errCalls = [] := by
+  refine ⟨_, _, by rw [serveSeq_pointwise]; rfl, ?_⟩
+  have h := middleware_meets_spec_partial cfg good.env good.ops hg hx
+  simp only [Meets, spec, hr, hq, hs, hok, (panics_false_iff good.ops).mpr hn] at h
+  exact ⟨by simpa using h.2.1, by simpa using h.2.2.1⟩
+
+/-- **concurrent_requests_do_not_interfere.** Two requests in flight at the same time, each handler against
+its own strict wrapper, under an arbitrary schedule of their calls: each wrapper ends in the state its own
+handler alone would have left it in. -/
+theorem concurrent_requests_do_not_interfere (sch : List Bool) (wa wb : Strict) (opsA opsB : List Op) :
+    interleaveStrict sch (wa, opsA) (wb, opsB) = (Strict.run wa opsA, Strict.run wb opsB) := by
+  induction sch generalizing wa wb opsA opsB with
+  | nil => rfl
+  | cons b sch ih =>
+    cases b with
+    | true =>
+      cases opsA with
+      | nil => simp only [interleaveStrict]; exact ih wa wb [] opsB
+      | cons op opsA => simp only [interleaveStrict]; rw [ih]; rfl
+    | false =>
+      cases opsB with
+      | nil => simp only [interleaveStrict]; exact ih wa wb opsA []
+      | cons op opsB => simp only [interleaveStrict]; rw [ih]; rfl
+
+/-- non-vacuity: a rejected strict response followed by a valid one, then a rejected request, a panicking
+handler, and a valid response again; all answers are the per-request ones -/
+example :
+    let bad : Req := ⟨{ routeFound := true, reqOK := true, respOK := fun _ _ b => b == ['1'] }, [.writeHeader 404, .write ['x']]⟩
+    let good : Req := ⟨{ routeFound := true, reqOK := true, respOK := fun _ _ b => b == ['1'] }, [.writeHeader 201, .write ['1']]⟩
+    let rej : Req := ⟨{ routeFound := true, reqOK := false, respOK := fun _ _ _ => true }, [.write ['z']]⟩
+    let pan : Req := ⟨{ routeFound := true, reqOK := true, respOK := fun _ _ _ => true }, [.writeHeader 201, .write ['z'], .panic]⟩
+    (serveSeq witnessCfg0 [bad, good, rej, pan, good]).map (fun o => (o.handlerRan, o.client.seen, o.client.panicked)) =
+      [(true, ⟨500, "server error\n".toList⟩, false), (true, ⟨201, ['1']⟩, false), (false, ⟨400, "bad request\n".toList⟩, false),
+       (true, ⟨200, []⟩, true), (true, ⟨201, ['1']⟩, false)] := by
+  decide
 
 /-! ## regression of the repaired finding F-C14-1 -/
 
@@ -320,32 +518,87 @@ theorem statusUnrecorded_repaired_valid :
 /-! ## ValidationHandler (the older request-only gate) -/
 
 /-- The handler behind ValidationHandler runs iff validateRequest succeeded. -/
-theorem vhandler_handler_iff (encOps : ReqFail → List Op) (fail : ReqFail) (ops : List Op) :
-    (vhandler encOps fail ops).handlerRan = true ↔ fail = .none := by
+theorem vhandler_handler_iff (encOps : ReqFail → List Op) (fail : ReqFail) (ops : List Op) (server : Bool) :
+    (vhandler encOps fail ops server).handlerRan = true ↔ fail = .none := by
   cases fail <;> simp [vhandler]
 
 /-- ValidationHandler: a failing request is answered by the ErrorEncoder alone (called once, handler not
-run); a passing one reaches the handler, whose response is not touched. -/
-theorem vhandler_meets_spec (encOps : ReqFail → List Op) (fail : ReqFail) (ops : List Op) :
-    vhandler encOps fail ops = vspec encOps fail ops := by
+run); a passing one reaches the handler, whose response is not touched (no wrapper at all: also informational
+responses and panics pass as they are). -/
+theorem vhandler_meets_spec (encOps : ReqFail → List Op) (fail : ReqFail) (ops : List Op) (server : Bool) :
+    vhandler encOps fail ops server = vspec encOps fail ops server := by
   cases fail <;> simp [vhandler, vspec]
+
+/-- histories through the older ValidationHandler: it keeps nothing between requests either -/
+theorem vserve_history_free (encOps : ReqFail → List Op) : HistoryFree (vserve encOps) := fun _ _ _ => rfl
+
+theorem vserveSeq_pointwise (encOps : ReqFail → List Op) (reqs : List VReq) :
+    vserveSeq encOps reqs = reqs.map (fun r => vspec encOps r.fail r.ops r.server) := by
+  unfold vserveSeq
+  rw [runSeq_of_historyFree (vserve encOps) (vserve_history_free encOps) {} {} reqs]
+  simp [vserve, vhandler_meets_spec]
+
+/-! ## NewValidator and its options -/
+
+/-- without options: non-strict, http.Error answers, package-log logging, zero `Options` -/
+theorem newValidator_defaults {ω : Type} (z : ω) :
+    (newValidator z []).strict = false ∧ (newValidator z []).errOps = defaultErrOps ∧
+    (newValidator z []).customLog = false ∧ (newValidator z []).options = z := ⟨rfl, rfl, rfl, rfl⟩
+
+/-- options are applied in order: the last one of a kind wins -/
+theorem newValidator_last_wins {ω : Type} (z : ω) (os : List (VOpt ω)) :
+    (∀ b, (newValidator z (os ++ [.strict b])).strict = b) ∧
+    (∀ f, (newValidator z (os ++ [.onErr f])).errOps = f) ∧
+    (∀ o, (newValidator z (os ++ [.validationOptions o])).options = o) ∧
+    (newValidator z (os ++ [.onLog])).customLog = true := by
+  simp [newValidator, List.foldl_append, applyOpt]
+
+/-- each option touches its own field only -/
+theorem option_touches_own_field {ω : Type} (s : Setup ω) :
+    (∀ b, (applyOpt s (.strict b)).errOps = s.errOps ∧ (applyOpt s (.strict b)).options = s.options ∧
+          (applyOpt s (.strict b)).customLog = s.customLog) ∧
+    (∀ f, (applyOpt s (.onErr f)).strict = s.strict ∧ (applyOpt s (.onErr f)).options = s.options ∧
+          (applyOpt s (.onErr f)).customLog = s.customLog) ∧
+    (∀ o, (applyOpt s (.validationOptions o)).strict = s.strict ∧ (applyOpt s (.validationOptions o)).errOps = s.errOps ∧
+          (applyOpt s (.validationOptions o)).customLog = s.customLog) ∧
+    ((applyOpt s .onLog).strict = s.strict ∧ (applyOpt s .onLog).errOps = s.errOps ∧ (applyOpt s .onLog).options = s.options) := by
+  simp [applyOpt]
+
+/-- a Validator is strict iff some `Strict` option was given and the last one says so -/
+theorem strict_iff_last_strict_option {ω : Type} (z : ω) (os : List (VOpt ω)) :
+    (newValidator z os).strict =
+      ((os.filterMap (fun o => match o with | .strict b => some b | _ => none)).getLast?).getD false := by
+  unfold newValidator
+  suffices h : ∀ (s : Setup ω), (os.foldl applyOpt s).strict =
+      ((os.filterMap (fun o => match o with | .strict b => some b | _ => none)).getLast?).getD s.strict from h _
+  induction os with
+  | nil => intro s; rfl
+  | cons o os ih =>
+    intro s
+    simp only [List.foldl_cons]
+    rw [ih]
+    cases o with
+    | strict b => simp only [applyOpt, List.filterMap_cons]; rw [getLast?_getD_cons]
+    | onErr f => simp only [applyOpt, List.filterMap_cons]
+    | onLog => simp only [applyOpt, List.filterMap_cons]
+    | validationOptions o => simp only [applyOpt, List.filterMap_cons]
 
 /-! ## non-vacuity -/
 
 /-- a non-trivial handler (headers, Write before WriteHeader, a second WriteHeader, pieces, Flush) satisfies
-the hypotheses of `middleware_meets_spec` in strict mode with a verdict function that depends on
-status, headers and body; both verdicts occur -/
+the hypotheses of `middleware_meets_spec_partial` in strict mode, behind a real server, with a verdict function that
+depends on status, headers and body; both verdicts occur -/
 example :
     let ops : List Op := [.setHdr "Content-Type" "application/json", .write ['1'], .flush, .writeHeader 404, .write ['2']]
-    let env : Env := { routeFound := true, reqOK := true,
+    let env : Env := { routeFound := true, reqOK := true, server := true,
                        respOK := fun st h b => st == 200 && hget h "Content-Type" == some "application/json" && b == ['1', '2'] }
-    ValidCodes ops ∧
+    ValidCodes ops ∧ informational env.server ops = false ∧
     (middleware witnessCfg env ops).client.seen = ⟨200, ['1', '2']⟩ ∧
     (middleware witnessCfg { env with respOK := fun _ _ _ => false } ops).client.seen = ⟨500, "server error\n".toList⟩ := by
-  refine ⟨?_, by decide, by decide⟩
+  refine ⟨?_, by decide, by decide, by decide⟩
   rw [← validCodesB_iff]; decide
 
-/-- the hypotheses of `strict_invalid_response_replaced` / `strict_valid_response_delivered` are satisfiable,
+/-- the hypotheses of `strict_invalid_response_replaced` / `strict_valid_response_delivered_partial` are satisfiable,
 and a handler whose first status is invalid makes the client's writer panic in both modes alike -/
 example : (Strict.run {} [.writeHeader 0, .write ['a']]).flushOut.panicked = true ∧
     (runDirect {} [.writeHeader 0, .write ['a']]).panicked = true ∧
